@@ -10,6 +10,7 @@ from ..core import AnalysisError, ClassInfo, FuncInfo, call_name, dotted, unpars
 from ..packs import ecc
 from ..report import Ctx
 from ..sigtemplate import AttrRoles
+from ..pattern import body_is, find, find_expr, has, has_expr
 
 ANCHOR_FILES = [
     'expressions/base_expressions.py', 'expressions/comparison_expressions.py', 'expressions/unary_expressions.py', 'expressions/logit_expressions.py',
@@ -160,8 +161,7 @@ def run(ctx: Ctx) -> None:
     # ---- R2
     for m, (leaf, op) in COLLECTORS.items():
         base = E.methods[m]
-        txt = unparse(base.node)
-        ok = f'e.{m}() for e in self.get_children()' in txt and 'set(chain.from_iterable(' in txt.replace('\n', '').replace(' ', '').replace('set(chain.from_iterable(', 'set(chain.from_iterable(')
+        ok = body_is(base.body, f'_C = set(chain.from_iterable([_E.{m}() for _E in self.get_children()]))\nreturn _C') is not None or body_is(base.body, f'return set(chain.from_iterable([_E.{m}() for _E in self.get_children()]))') is not None
         ctx.add('C12.R2', f'Expression.{m}', ok, base, f'{m} unions over all children' if ok else f'base {m} does not union over all children', m)
         for c in classes:
             if c is E or m not in c.methods:
@@ -169,13 +169,13 @@ def run(ctx: Ctx) -> None:
             g = c.methods[m]
             body = [unparse(s) for s in g.body]
             if c.name == leaf:
-                ok = body == ['return {self.name}']
+                ok = body_is(g.body, 'return {self.name}') is not None
                 what = 'answers its own name'
             elif c.name == op:
-                ok = body == ['return set()']
+                ok = body_is(g.body, 'return set()') is not None
                 what = 'answers the empty set (everything below is properly placed)'
             elif c.name == 'MultipleExpression':
-                ok = body == ['_, expr = self.selected()', f'return expr.{m}()']
+                ok = body_is(g.body, f'_U, _X = self.selected()\nreturn _X.{m}()') is not None
                 what = 'delegates to the selected member'
             else:
                 ok = False
@@ -242,8 +242,17 @@ def run(ctx: Ctx) -> None:
     call = [n for n in walk_no_nested(sim.node) if isinstance(n, ast.Call) and unparse(n.func) == 'self.theC.simulateSeveralFormulas']
     ok = len(loops) == 1 and len(call) == 1 and cs.dominates(cs.node_of(loops[0]), cs.node_of(call[0])) and 'raise BiogemeError' in unparse(loops[0])
     ctx.add('C12.R3', 'BIOGEME.simulate:audit', ok, sim, 'every formula is audited (raising) before the simulation' if ok else 'simulate does not audit every formula before simulating', 'simulate')
-    cnt = [n for n in walk_no_nested(sim.node) if isinstance(n, ast.If) and unparse(n.test) == 'count != 1' and any(isinstance(x, ast.Raise) for x in n.body)]
-    ok = len(cnt) == 1 and 'count = f.count_panel_trajectory_expressions()' in unparse(sim.node)
+    ok = has(sim.node, """
+if self.database.is_panel():
+    for _F in self.formulas.values():
+        _C = _F.count_panel_trajectory_expressions()
+        if _C != 1:
+            ___
+            raise BiogemeError(__MSG)
+    ___
+else:
+    ___
+""")
     ctx.add('C12.R3', 'BIOGEME.simulate:panel', ok, sim, 'on panel data every simulated formula needs exactly one PanelLikelihoodTrajectory' if ok else 'the panel test of simulate changed', 'panel')
     ctx.floor('C12.R3', 7)
     # ---- R4
